@@ -26,7 +26,7 @@ CFG = {
                           "workers never deadlock for any pool size >= 1 (Conc/Nested.v); ReadOptimizedLock: no two "
                           "writers, no writer together with an admitted reader, a reader never sees a half-done "
                           "write; fetch_add ranges are disjoint and tile, all written items present and intact",
-        "link_only": "real-time blocking (Condvar / crossbeam channel wake-ups), memory ordering weaker than SC "
+        "link_only": "the COMPOSITION of the writers with the lock - every raw copy of ParallelVecWriter must happen while its read guard is alive, otherwise a concurrent growth moves the buffer under it - is not in the Coq models (WritersModel leaves reallocation to RoLockModel): it is covered by the growth-during-copy stress scenarios of h_conc (moving-realloc allocator, seeded/C19/rt_c19 is the regression for it); real-time blocking (Condvar / crossbeam channel wake-ups), memory ordering weaker than SC "
                      "(Acquire/Release fences in lib.rs, AcqRel counters), arc-swap debt internals, Vec reallocation and "
                      "the unsafe raw-pointer writes, NotificationList, thread-local pool installation, "
                      "MAX_INLINE_SCOPE_HELP_DEPTH/BackupWorker: exercised by the stress harness only (testing, not proof); "
